@@ -30,6 +30,8 @@ SP(id, m, p, spec) == [PO(id, m, p, IF spec = "short" THEN "fail" ELSE "ok", "no
 NP(id, m, p, pre, ser) == O(id, m, p, "-", "-", << >>, "none", << >>, pre, "none", "none", "ok", ser)
 
 QuickOps == {
+  [PA("A:a/ok,pc|nodef", "A", NoDefKW, << >>, "a", <<"ok", "pc">>) EXCEPT !.late = "fail"],   \* prints a's configuration WITHOUT defaults: shows which parse kwargs the sub-command parse really got
+  PA("A:a/pc",            "A", DefKW, << >>, "a", <<"pc">>),
   PA("A:pc,help",         "A", DefKW, <<"pc", "help">>, "none", << >>),
   PO("A:str",             "parse_string", "A", "ok", "none", "none", "ok"),
   PO("A:env",             "parse_env", "A", "ok", "none", "none", "ok"),
@@ -75,7 +77,6 @@ QuickOps == {
 MoreOps == {
   PA("A:b/ok",            "A", DefKW, << >>, "b", <<"ok">>),
   PA("A:a/bad",           "A", DefKW, << >>, "a", <<"bad">>),
-  PA("A:a/pc",            "A", DefKW, << >>, "a", <<"pc">>),
   PA("A:ok|nodef",        "A", NoDefKW, <<"ok">>, "none", << >>),
   PA("A:ncls",            "A", DefKW, <<"ncls">>, "none", << >>),
   PA("A:pc,unk",          "A", DefKW, <<"pc", "unk">>, "none", << >>),
